@@ -222,20 +222,96 @@ func checkCauseBound(c *report.Ctx) {
 		c.Check("R-GUARD", an.FuncName(f)+"/invalid-dropped", "invalid JSON and causes without any recognised field are rejected with an error (and therefore dropped by the callers)", okParse && okValid, fpos(f), 2, "parse error -> error: %v; !isValid() -> error: %v", okParse, okValid)
 	}
 	if f := fn(c, "L/rapi/model", "(*ErrorCause).isValid"); f != nil {
-		// false exactly when all four are empty
-		nlen := 0
-		an.AllInstrs(f, func(in ssa.Instruction) {
-			if bo, ok := in.(*ssa.BinOp); ok && bo.Op == token.EQL {
-				if x, isLen := an.LenArg(bo.X); isLen {
-					if fr, k := an.AsField(an.Strip(x, false)); k && fr.Struct == "L/rapi/model.ErrorCause" {
-						if n, kk := an.ConstInt(bo.Y); kk && n == 0 {
-							nlen++
+		// false exactly when all four are empty: decided per exit (and per incoming edge of a joined result) from the
+		// emptiness facts known there - whatever way the condition is written (nested ifs, one &&-chain, one ||-chain
+		// returned directly, early returns)
+		four := []string{"WorkingDir", "Paths", "Exceptions", "Message"}
+		fieldOf := func(x ssa.Value) string {
+			if x == nil {
+				return ""
+			}
+			if fr, k := an.AsField(an.Strip(x, false)); k && fr.Struct == "L/rapi/model.ErrorCause" {
+				return fr.Field
+			}
+			if u, k := an.Strip(x, false).(*ssa.UnOp); k {
+				if fr, k2 := an.AsField(u.X); k2 && fr.Struct == "L/rapi/model.ErrorCause" {
+					return fr.Field
+				}
+			}
+			return ""
+		}
+		facts := an.NewFacts(f)
+		okFour, ncase := true, 0
+		var why []string
+		for _, e := range an.Exits(f) {
+			if len(e.Vals) != 1 {
+				continue
+			}
+			for _, jc := range facts.JoinCases(e.Vals[0], e.Ret.Block()) {
+				ncase++
+				empty, nonEmpty := map[string]bool{}, map[string]bool{}
+				for _, ft := range jc.Facts {
+					if x, z, nz := an.LenSign(ft); x != nil {
+						if fl := fieldOf(x); fl != "" {
+							if z {
+								empty[fl] = true
+							}
+							if nz {
+								nonEmpty[fl] = true
+							}
 						}
 					}
 				}
+				allEmptyBut := func(skip string) bool {
+					for _, fl := range four {
+						if fl != skip && !empty[fl] {
+							return false
+						}
+					}
+					return true
+				}
+				good := false
+				if b, isC := an.ConstBool(jc.Val); isC {
+					if b {
+						good = len(nonEmpty) >= 1
+						if !good {
+							// a plain join of the ways out of an &&-chain: each way in knows its own field non-empty
+							var someNonEmpty func(b *ssa.BasicBlock, depth int) bool
+							someNonEmpty = func(b *ssa.BasicBlock, depth int) bool {
+								if len(b.Preds) == 0 || depth > 3 {
+									return false
+								}
+								for _, p := range b.Preds {
+									hit := false
+									for _, ft := range facts.OnEdge(p, b) {
+										if x, _, nz := an.LenSign(ft); x != nil && nz && fieldOf(x) != "" {
+											hit = true
+										}
+									}
+									if !hit && !someNonEmpty(p, depth+1) {
+										return false
+									}
+								}
+								return true
+							}
+							good = someNonEmpty(e.Ret.Block(), 0)
+						}
+					} else {
+						good = allEmptyBut("")
+					}
+				} else {
+					// the result is itself the last test: valid iff that field is non-empty, the others being empty
+					if x, _, nz := an.LenSign(an.Fact{Cond: jc.Val, Val: true}); x != nil && nz {
+						good = allEmptyBut(fieldOf(x)) && fieldOf(x) != ""
+					}
+				}
+				if !good {
+					okFour = false
+					why = append(why, sprintf("%s under %s", an.Path(jc.Val), factsString(jc.Facts)))
+				}
 			}
-		})
-		c.Check("R-GUARD", an.FuncName(f)+"/four-fields", "a cause is valid when at least one of its four recognised fields is non-empty", nlen == 4, fpos(f), nlen, "%d emptiness tests", nlen)
+		}
+		c.Check("R-GUARD", an.FuncName(f)+"/four-fields", "a cause is valid when at least one of its four recognised fields is non-empty", okFour && ncase >= 2, fpos(f), ncase, "result cases: %d; not justified: %v", ncase, why)
 	}
 	if f := fn(c, "L/rapi/model", "newErrorCause"); f != nil {
 		ok := len(an.CallsTo(f, "encoding/json.Unmarshal")) == 1
